@@ -4,6 +4,7 @@ CONSTANTS
   Types = {"NC", "Sp", "Str", "Int", "Nest"}
   Vals = {1, 2}
   Fuses = {0, 1}
+  AFuses = {0, 1}
   InPlaceTypes = {"NC", "Sp", "Int"}
   NothrowMove = {"NC", "Sp", "Str", "Int", "Nest"}
   SelfSwapGuard = TRUE
